@@ -265,4 +265,102 @@ theorem undeclared_property_rejectedE (opts : IOpts) (fuel : Nat) (fields : List
     have := List.all_eq_true.1 hall (k, v) hkv
     simp [hexact, hfold] at this
 
+/-! ### the hypotheses are satisfiable, the statements discriminate (labelled tests)
+
+  `struct{ Inner; A int "json:\"a\"" }` with `type Inner struct { X int "json:\"x\""; Y string "json:\"y,omitempty\"" }`
+  (`C04.embedValT`).  `tagLookup` splits the tag with `String.splitOn`, which the kernel does not evaluate: what the tag
+  parser returns for each tag is a hypothesis (the parser is specified in C16: `fieldJSONInfo_named`, …). -/
+
+section WitnessesE
+open EncJsonEmb
+variable (tI tX tY tA : String)
+  (hI : tagLookup "json" tI = none)                                        -- the embedded field has no json tag
+  (hX : fieldJSONInfo "X" tX = { name := "x" }) (hY : fieldJSONInfo "Y" tY = { name := "y", omitempty := true })
+  (hA : fieldJSONInfo "A" tA = { name := "a" })
+  (dX : tagLookup "jsonschema" tX = none) (dY : tagLookup "jsonschema" tY = none) (dA : tagLookup "jsonschema" tA = none)
+
+include hX hY hA dX dY dA in
+/-- `ForType` succeeds on the type: the hypothesis `h` of the theorems is satisfiable -/
+theorem embedVal_infers : ∃ id st', forTypeE {} 3 (C04.embedValT tI tX tY tA) #[] = .ok (some id, st') := by
+  simp [C04.embedValT, C04.fld, C04.emb, forTypeE, inferFuelE, inferStepE, stripPtrsE, typeNameE, visibleFields, allFields,
+    embFields, isVisible, structLoopE, fieldStepE, fieldJSONInfoE, underSkip, overrideOf, addFieldE, hX, hY, hA, dX, dY, dA,
+    Res.bind_ok, C16.kindEntry_Int, C16.kindEntry_String, Store.alloc, Store.get?, addNull, dedupKeepLast]
+
+include hI hX hY hA in
+/-- the always-written names of the type: the promoted `x` and the outer `a` -/
+theorem embedVal_always : alwaysFieldNames [C04.emb "Inner" tI (.named "Inner" (.struct [C04.fld "X" tX (.basic "Int"),
+      C04.fld "Y" tY (.basic "String")])), C04.fld "A" tA (.basic "Int")] = ["x", "a"] := by
+  have hIo := (fieldJSONInfo_untagged (g := "Inner") (tag := tI) (by rw [hI]; rfl))
+  simp [C04.fld, C04.emb, alwaysFieldNames, typeFields, candidates, embCandidates, classify, mkTField, isDominant,
+    dominates, isStructE, derefE, hIo.1, hIo.2, hX, hY, hA]
+
+include hI hX hY hA in
+/-- accepted, hence decodes: `{"x":1,"a":2}` (accepted by `C04.infer_soundE_partial`: it is the encoding of
+    `{Inner: {X: 1, Y: ""}, A: 2}`); `infer_tightE_partial` applied -/
+theorem embedVal_accepted_decodes (id : NodeId) (st' : Store) (h : forTypeE {} 3 (C04.embedValT tI tX tY tA) #[] = .ok (some id, st')) :
+    Spec.valid (specEnvNoRefs st') 4 id (.obj [("x", .num 1), ("a", .num 2)]) = some true ∧
+    decodableE (C04.embedValT tI tX tY tA) (.obj [("x", .num 1), ("a", .num 2)]) = true := by
+  have hIo := (fieldJSONInfo_untagged (g := "Inner") (tag := tI) (by rw [hI]; rfl))
+  have hnt := (embNotInTable_of_empty (opts := {}) (fun _ => rfl) _).1 (C04.embedValT tI tX tY tA) (Nat.le_refl _)
+  have hd := C04.embedVal_inDomain tI tX tY tA hI hX hY hA
+  have hs := C04.infer_soundE_partial {} 3 _ #[] id st' (fun _ _ => false) rfl hnt hd h _
+    (C04.embedVal_hasType tI tX tY tA hI hX hY hA) 4 (by simp [C04.embedValT, C04.fld, C04.emb, depthE, depthFieldsE])
+  have hv : Spec.valid (specEnvNoRefs st') 4 id (.obj [("x", .num 1), ("a", .num 2)]) = some true := by
+    simpa [C04.embedValT, C04.fld, C04.emb, encodeE, encodeFieldsE, encodeEmbE, candidates, embCandidates, classify, mkTField,
+      isDominant, dominates, isStructE, derefE, hIo.1, hIo.2, hX, hY, hA, fieldSkipped, isEmptyValue] using hs
+  exact ⟨hv, infer_tightE_partial {} 3 _ #[] id st' (fun _ _ => false) hnt hd h _ (by decide) 4 hv⟩
+
+include hI hX hY hA in
+/-- … the same verdict of the decoder, evaluated: `x` is found through the embedded struct -/
+example : decodableE (C04.embedValT tI tX tY tA) (.obj [("x", .num 1), ("a", .num 2)]) = true := by
+  have hIo := (fieldJSONInfo_untagged (g := "Inner") (tag := tI) (by rw [hI]; rfl))
+  simp [C04.embedValT, C04.fld, C04.emb, decodableE, decodableFindE, decodableEmbFindE, candidates, embCandidates, classify,
+    mkTField, isDominant, dominates, isStructE, derefE, hIo.1, hIo.2, hX, hY, hA, decodableBasic, intRange]
+  exact ⟨Or.inr ⟨by decide, by decide⟩, Or.inr ⟨by decide, by decide⟩⟩
+
+include hI hX hY hA in
+/-- rejected, an unknown key: `{"x":1,"a":2,"z":3}` (`undeclared_property_rejectedE`), at every fuel -/
+theorem embedVal_unknown_key_rejected (id : NodeId) (st' : Store) (h : forTypeE {} 3 (C04.embedValT tI tX tY tA) #[] = .ok (some id, st')) (fuel' : Nat) :
+    Spec.valid (specEnvNoRefs st') fuel' id (.obj [("x", .num 1), ("a", .num 2), ("z", .num 3)]) ≠ some true := by
+  have hIo := (fieldJSONInfo_untagged (g := "Inner") (tag := tI) (by rw [hI]; rfl))
+  have hnt := (embNotInTable_of_empty (opts := {}) (fun _ => rfl) _).1 (C04.embedValT tI tX tY tA) (Nat.le_refl _)
+  have hd := C04.embedVal_inDomain tI tX tY tA hI hX hY hA
+  have fx : foldEq "x" "z" = false := by decide
+  have fy : foldEq "y" "z" = false := by decide
+  have fa : foldEq "a" "z" = false := by decide
+  refine undeclared_property_rejectedE {} 3 _ #[] id st' (fun _ _ => false) hnt hd h _ (by decide) "z" (.num 3)
+    (by simp) ?_ ?_ fuel'
+  · simp [C04.fld, C04.emb, decodableFindE, decodableEmbFindE, classify, isStructE, derefE, hIo.1, hIo.2, hX, hY, hA]
+  · simp [C04.fld, C04.emb, decodableFindE, decodableEmbFindE, classify, isStructE, derefE, hIo.1, hIo.2, hX, hY, hA,
+      fx, fy, fa]
+
+include hI hX hY hA in
+/-- rejected, a missing required promoted field: `{"a":2}` lacks `x` of the embedded `Inner`
+    (`missing_required_rejectedE`) — although the decoder accepts it -/
+theorem embedVal_missing_promoted_rejected (id : NodeId) (st' : Store) (h : forTypeE {} 3 (C04.embedValT tI tX tY tA) #[] = .ok (some id, st')) (fuel' : Nat) :
+    Spec.valid (specEnvNoRefs st') fuel' id (.obj [("a", .num 2)]) ≠ some true ∧
+    decodableE (C04.embedValT tI tX tY tA) (.obj [("a", .num 2)]) = true := by
+  have hIo := (fieldJSONInfo_untagged (g := "Inner") (tag := tI) (by rw [hI]; rfl))
+  have hnt := (embNotInTable_of_empty (opts := {}) (fun _ => rfl) _).1 (C04.embedValT tI tX tY tA) (Nat.le_refl _)
+  have hd := C04.embedVal_inDomain tI tX tY tA hI hX hY hA
+  refine ⟨missing_required_rejectedE {} 3 _ #[] id st' (fun _ _ => false) hnt hd h _ "x" ?_ (by simp [Json.lookup]) fuel', ?_⟩
+  · rw [embedVal_always tI tX tY tA hI hX hY hA]
+    simp
+  · simp [C04.embedValT, C04.fld, C04.emb, decodableE, decodableFindE, decodableEmbFindE, candidates, embCandidates, classify,
+      mkTField, isDominant, dominates, isStructE, derefE, hIo.1, hIo.2, hX, hY, hA, decodableBasic, intRange]
+    exact Or.inr ⟨by decide, by decide⟩
+
+include hI hX hY hA dX dY dA in
+/-- all of it about the schema `ForType` actually returns for the type -/
+example : ∃ id st', forTypeE {} 3 (C04.embedValT tI tX tY tA) #[] = .ok (some id, st') ∧
+    Spec.valid (specEnvNoRefs st') 4 id (.obj [("x", .num 1), ("a", .num 2)]) = some true ∧
+    (∀ fuel', Spec.valid (specEnvNoRefs st') fuel' id (.obj [("x", .num 1), ("a", .num 2), ("z", .num 3)]) ≠ some true) ∧
+    (∀ fuel', Spec.valid (specEnvNoRefs st') fuel' id (.obj [("a", .num 2)]) ≠ some true) := by
+  obtain ⟨id, st', h⟩ := embedVal_infers tI tX tY tA hX hY hA dX dY dA
+  exact ⟨id, st', h, (embedVal_accepted_decodes tI tX tY tA hI hX hY hA id st' h).1,
+    fun fuel' => embedVal_unknown_key_rejected tI tX tY tA hI hX hY hA id st' h fuel',
+    fun fuel' => (embedVal_missing_promoted_rejected tI tX tY tA hI hX hY hA id st' h fuel').1⟩
+
+end WitnessesE
+
 end JSV.C09
